@@ -60,11 +60,18 @@ class PassHarness:
         self.selfobj.attrs["__call__"] = self.dt_call
         self.selfobj.attrs["visit"] = self.tr_visit
         self.selfobj.attrs["_variable_cache"] = {}
+
+        def on_instantiate(o, cls):
+            if cls.is_subclass_of("Transformer"):
+                o.attrs["visit"] = lambda x, o=o: self.tr_visit(x, o)
+                o.attrs["_variable_cache"] = {}
+
+        self.ip.on_instantiate = on_instantiate
         self.memo = {}
         self.calls = 0
         install_node_protocol(self)
         ip_ = self.ip
-        ip_.skip_functions |= {"MultiFunction.__init__", "DAGTraverser.__init__"}
+        ip_.skip_functions |= {"MultiFunction.__init__", "DAGTraverser.__init__", "Transformer.__init__", "ReuseTransformer.__init__"}
         import collections
         import itertools as _it
 
@@ -142,13 +149,15 @@ class PassHarness:
         return rec(expression)
 
     # Transformer.visit
-    def tr_visit(self, x):
-        h = self.handler_for(x)
+    def tr_visit(self, x, selfobj=None):
+        so = selfobj if selfobj is not None else self.selfobj
+        tab = self._table_of(so) if selfobj is not None else self.tab
+        h = self.handler_for(x, tab)
         self.calls += 1
         if h.kind == "cutoff":
-            return self.ip.call_function(h.func, [x], {}, self_obj=self.selfobj)
-        ops = [self.tr_visit(o) for o in node_operands(x)]
-        return self.ip.call_function(h.func, [x] + ops, {}, self_obj=self.selfobj)
+            return self.ip.call_function(h.func, [x], {}, self_obj=so)
+        ops = [self.tr_visit(o, selfobj) for o in node_operands(x)]
+        return self.ip.call_function(h.func, [x] + ops, {}, self_obj=so)
 
     # DAGTraverser.__call__  (memoised on node identity and keyword arguments)
     def dt_call(self, x, **kwargs):
